@@ -170,16 +170,19 @@ let k3_line (line : string) : string =
                 | "-" -> None
                 | s -> (match String.split_on_char ':' s with
                     | [st; a] -> Some (nat_of_int (int_of_string st), z_of_string a)
-                    | _ -> failwith "panic")) } in
+                    | _ -> failwith "panic"));
+            c_macro = ((try List.assoc "macro" fs with Not_found -> "0") = "1") } in
   let o = exec c in
   (* parameters as they stand after the stages, before the trailing setters *)
   let rec drop_last2 = function [] | [_] | [_; _] -> [] | x :: r -> x :: drop_last2 r in
-  let omid = exec { c with c_ops = drop_last2 c.c_ops; c_term = TCount; c_sched = []; c_fuel = O } in
+  let omid = exec { c with c_ops = drop_last2 c.c_ops; c_term = TCount; c_sched = []; c_fuel = O; c_macro = false; c_panic = None } in
   let all_calls = List.sort call_cmp (List.concat o.o_rlog) in
   let seqlog = if o.o_sequential then str_list call_str (List.concat o.o_rlog) else "-" in
   let sites = sites_of c.c_ops (match c.c_term with TForEach -> true | _ -> false) in
-  Printf.sprintf "id=%s pmid=%s sites=%s seqlog=%s res=%s params=%s kind=%s seq=%d consumed=%d clog=%s calls=%s spawned=%d chunks=%s pulls=%s"
-    (get fs "id") (params_str omid.o_params) (if sites = [] then "-" else String.concat "," sites) seqlog (res_str o.o_result) (params_str o.o_params) (kind_str o.o_kind)
+  let seen_s = if o.o_seen = [] then "-" else String.concat "|" (List.map (fun l ->
+      if l = [] then "-" else String.concat "," (List.map (fun n -> string_of_int (int_of_nat n)) l)) o.o_seen) in
+  Printf.sprintf "id=%s complete=%d seen=%s pmid=%s sites=%s seqlog=%s res=%s params=%s kind=%s seq=%d consumed=%d clog=%s calls=%s spawned=%d chunks=%s pulls=%s"
+    (get fs "id") (if o.o_complete then 1 else 0) seen_s (params_str omid.o_params) (if sites = [] then "-" else String.concat "," sites) seqlog (res_str o.o_result) (params_str o.o_params) (kind_str o.o_kind)
     (if o.o_sequential then 1 else 0) (int_of_nat o.o_consumed)
     (str_list call_str o.o_clog) (str_list call_str all_calls)
     (int_of_nat o.o_spawned) (str_list (fun n -> string_of_int (int_of_nat n)) o.o_chunks)
